@@ -133,9 +133,12 @@ TEXT["C20"] = ("Framing only. Verus proves on the code copied from /repo that ev
                "buffer / temporary buffer; the buffer is empty again on every exit path, so no bytes of one record leak into the next line), SyncHandle::new "
                "(the line ending used is the configured one), AsyncHandle::write (file, async), both arms of util::write_buffered (stdout / stderr / "
                "duplicates: LF, result handed back), StdWriter::write (all three write modes; configured format function) and its writer thread (message "
-               "written as it is); DeferredNow::now reads the clock on the first call only and returns the stored value afterwards.",
-               "NOT decided: fidelity of the provided format functions and JSON validity (core::fmt / serde_json code, an oracle `fmt_bytes` here); that all "
-               "outputs of one record are handed the *same* DeferredNow (needs call history; only `now()` is idempotent is proved); the scaffolding around the "
+               "written as it is); DeferredNow::now reads the clock on the first call only and returns the stored value afterwards. One timestamp per record: "
+               "FlexiLogger::log hands every output (each named additional writer, the line filter or the primary writer) a timestamp holder of one origin "
+               "(postcondition with an existential origin; two DeferredNow::new() calls yield unrelated origins), and PrimaryWriter::write, MultiWriter::write "
+               "(both duplicates, file writer, other writer), FileLogWriter::write, both arms of StateHandle::write and of write_buffered, AsyncHandle::write and "
+               "StdWriter::write hand on only the holder they were given (permission now_ok) and keep its origin.",
+               "NOT decided: fidelity of the provided format functions and JSON validity (core::fmt / serde_json code, an oracle `fmt_bytes` here); the scaffolding around the "
                "copied closure arms (buffer_with, RefCell::try_borrow_mut, thread_local) is not verified; format function and record are opaque values.")
 TEXT["C20"] = (TEXT["C20"][0] + TEXT_ADD["C20"], TEXT["C20"][1])
 PENDING = "not reached yet in the build (units for this property are not registered); see DESIGN.md section 5"
